@@ -37,7 +37,7 @@ func init() {
 		Assumptions: []string{"documents with duplicate keys are not generated (statement: faithful projection of an object)", "encoding/json is the independent JSON reader"},
 		Batches:     tiered(640, 12800),
 		Run:         runC20,
-		Timeout:     timeoutFor(8*time.Minute, 40*time.Minute),
+		Timeout:     timeoutFor(3*time.Minute, 40*time.Minute),
 	})
 }
 
